@@ -156,3 +156,45 @@ V("C17", "state not initialised", "R17.5", (CLS, "        self.abs_pos_tol = Non
 V("C17", "matrix with vdw radii, dimensionality with default", "R17.6", (CLS, "distances = matid.geometry.get_distances(system)", "distances = matid.geometry.get_distances(system, \"vdw\")"))
 V("C17", "cluster_threshold ignored", "R17.6", (CLS, "            system, self.cluster_threshold, distances.dist_matrix_radii_mic", "            system, 3.5, distances.dist_matrix_radii_mic"))
 V("C17", "twin: explicit else for 3D", "silent", (CLS, "        elif dimensionality == 3:\n            classification = Class3D(input_system)", "        else:\n            classification = Class3D(input_system)"))
+
+# ------------------------------------------------------------------------------------------ C05
+V("C05", "transpose dropped when applying the normalizer", "R05.3", (SYM, "transformed_positions = np.dot(old_pos, best_transformation_matrix.T)", "transformed_positions = np.dot(old_pos, best_transformation_matrix)"))
+V("C05", "twin: column-vector form", "silent", (SYM, "transformed_positions = np.dot(old_pos, best_transformation_matrix.T)", "transformed_positions = np.dot(best_transformation_matrix, old_pos.T).T"))
+V("C05", "homogeneous coordinate is 0", "R05.3", (SYM, "old_pos[:, 3] = 1", "old_pos[:, 3] = 0"))
+V("C05", "result not wrapped", "R05.3", (SYM, "wrapped_pos = matid.geometry.get_wrapped_positions(transformed_positions)", "wrapped_pos = transformed_positions"))
+V("C05", "positions set on the input object", "R05.3", (SYM, "        # Apply the best transform\n        new_system = system.copy()", "        # Apply the best transform\n        new_system = system"))
+V("C05", "improper normalizer added to chiral group 16", "R05.1",
+  (TAB, "    16: [\n        {", "    16: [\n        {\n            \"permutations\": {\"a\": \"h\", \"b\": \"b\", \"c\": \"c\", \"d\": \"d\", \"e\": \"e\", \"f\": \"f\", \"g\": \"g\", \"h\": \"a\", \"i\": \"i\", \"j\": \"j\", \"k\": \"k\", \"l\": \"l\", \"m\": \"m\", \"n\": \"n\", \"o\": \"o\", \"p\": \"p\", \"q\": \"q\", \"r\": \"r\", \"s\": \"s\", \"t\": \"t\", \"u\": \"u\"},\n            \"transformation\": array([[-1.0, 0.0, 0.0, 0.0], [0.0, -1.0, 0.0, 0.0], [0.0, 0.0, -1.0, 0.0], [0.0, 0.0, 0.0, 1.0]]),\n        },\n        {"))
+V("C05", "non-isometric normalizer", "R05.2", (TAB, "                    [1.0, 0.0, 0.0, 0.0],\n                    [0.0, 1.0, 0.0, 0.0],\n                    [0.0, 0.0, 1.0, -0.5],\n                    [0.0, 0.0, 0.0, 1.0],\n                ]\n            ),\n        },\n        {\n            \"permutations\": {\n                \"a\": \"a\",\n                \"b\": \"b\",\n                \"c\": \"c\",\n                \"d\": \"d\",\n                \"e\": \"e\",\n                \"f\": \"f\",\n            },\n            \"transformation\": array(\n                [\n                    [0.0, 1.0, 0.0, -0.5],",
+                                               "                    [1.0, 1.0, 0.0, 0.0],\n                    [0.0, 1.0, 0.0, 0.0],\n                    [0.0, 0.0, 1.0, -0.5],\n                    [0.0, 0.0, 0.0, 1.0],\n                ]\n            ),\n        },\n        {\n            \"permutations\": {\n                \"a\": \"a\",\n                \"b\": \"b\",\n                \"c\": \"c\",\n                \"d\": \"d\",\n                \"e\": \"e\",\n                \"f\": \"f\",\n            },\n            \"transformation\": array(\n                [\n                    [0.0, 1.0, 0.0, -0.5],"))
+
+# ------------------------------------------------------------------------------------------ C06
+V("C06", "ranking over an unsorted set of letters", "R06.2", (SYM, "        wyckoff_letters = sorted(wyckoff_letters)\n", ""))
+V("C06", "atomic numbers not sorted", "R06.2", (SYM, "        atomic_numbers = sorted(atomic_numbers)\n", "        atomic_numbers = list(atomic_numbers)\n"))
+V("C06", "sets returned unsorted", "R06.2", (SYM, "        sorted_list = sorted(\n            unsorted_list, key=attrgetter(\"wyckoff_letter\", \"atomic_number\")\n        )", "        sorted_list = unsorted_list"))
+V("C06", "atom indices enter the id", "R06.3", (SYM, "i_string = \"{} {} {}\".format(element, wyckoff_letter, n_atoms)", "i_string = \"{} {} {}\".format(element, wyckoff_letter, group.indices)"))
+V("C06", "free parameter enters the id", "R06.3", (SYM, "i_string = \"{} {} {}\".format(element, wyckoff_letter, n_atoms)", "i_string = \"{} {} {} {}\".format(element, wyckoff_letter, n_atoms, group.x)"))
+V("C06", "2D prefix dropped", "R06.3", (SYM, "        if self.n_pbc == 2:\n            string = f\"2D {string}\"\n", ""))
+V("C06", "last of equal candidates wins", "R06.4", (SYM, "        best_representation = representations[0]\n\n        # Apply", "        best_representation = representations[-1]\n\n        # Apply"))
+V("C06", "normalizer 88/0 garbled into the identity (coset missing)", "R06.1", (TAB, "    88: [\n        {\n            \"permutations\": {\n                \"a\": \"b\",\n                \"b\": \"a\",\n                \"c\": \"d\",\n                \"d\": \"c\",\n                \"e\": \"e\",\n                \"f\": \"f\",\n            },\n            \"transformation\": array(\n                [\n                    [1.0, 0.0, 0.0, 0.0],\n                    [0.0, 1.0, 0.0, 0.0],\n                    [0.0, 0.0, 1.0, -0.5],", "    88: [\n        {\n            \"permutations\": {\n                \"a\": \"b\",\n                \"b\": \"a\",\n                \"c\": \"d\",\n                \"d\": \"c\",\n                \"e\": \"e\",\n                \"f\": \"f\",\n            },\n            \"transformation\": array(\n                [\n                    [1.0, 0.0, 0.0, 0.0],\n                    [0.0, 1.0, 0.0, 0.0],\n                    [0.0, 0.0, 1.0, 0.0],"))
+
+# ------------------------------------------------------------------------------------------ C07
+V("C07", "one permutation value swapped", "R07.1", (TAB, "    88: [\n        {\n            \"permutations\": {\n                \"a\": \"b\",\n                \"b\": \"a\",\n                \"c\": \"d\",\n                \"d\": \"c\",",
+                                                    "    88: [\n        {\n            \"permutations\": {\n                \"a\": \"b\",\n                \"b\": \"a\",\n                \"c\": \"c\",\n                \"d\": \"d\","))
+V("C07", "permutation applied without the transformation", "R07.2", (SYM, "            new_system.set_scaled_positions(wrapped_pos)\n", "            pass\n"))
+V("C07", "letters from another candidate", "R07.2", (SYM, "            best_permutations = best_representation[\"permutations\"]", "            best_permutations = representations[-1][\"permutations\"]"))
+V("C07", "best transform recorded as identity", "R07.2", (SYM, "            self._best_transform = best_representation\n", "            self._best_transform = identity\n"))
+V("C07", "multiplicity from the table", "R07.3", (SYM, "            wset.multiplicity = len(wset.indices)", "            wset.multiplicity = len(wyckoff_infos[wset.wyckoff_letter][\"expressions\"])"))
+V("C07", "conventional letters through the original mapping", "R07.4", (SYM, "            mapping = dataset.std_mapping_to_primitive\n            self._spglib_wyckoff_letters_conventional = wyckoff_letters_primitive[", "            mapping = dataset.mapping_to_primitive\n            self._spglib_wyckoff_letters_conventional = wyckoff_letters_primitive["))
+V("C07", "primitive letters indexed by the raw mapping", "R07.4", (SYM, "            self._spglib_wyckoff_letters_primitive = wyckoff_letters_original[mapping]", "            self._spglib_wyckoff_letters_primitive = wyckoff_letters_original[self.get_symmetry_dataset().mapping_to_primitive]"))
+
+# ------------------------------------------------------------------------------------------ C12
+V("C12", "sign slip in the A matrix", "R12.1", (SYM, "                    [0, 1 / 2, -1 / 2],\n                    [0, 1 / 2, 1 / 2],", "                    [0, 1 / 2, 1 / 2],\n                    [0, 1 / 2, 1 / 2],"))
+V("C12", "R matrix in reverse setting", "R12.1", (SYM, "                    [2 / 3, -1 / 3, -1 / 3],\n                    [1 / 3, 1 / 3, -2 / 3],", "                    [1 / 3, -2 / 3, 1 / 3],\n                    [2 / 3, -1 / 3, -1 / 3],"))
+V("C12", "twin: another primitive basis of the I lattice", "silent", (SYM, "                    [-1 / 2, 1 / 2, 1 / 2],\n                    [1 / 2, -1 / 2, 1 / 2],\n                    [1 / 2, 1 / 2, -1 / 2],", "                    [1, 0, 1 / 2],\n                    [0, 1, 1 / 2],\n                    [0, 0, 1 / 2],"))
+V("C12", "transform not transposed", "R12.1", (SYM, "prim_cell = np.dot(transform.T, conv_cell)", "prim_cell = np.dot(transform, conv_cell)"))
+V("C12", "fractional conversion transposed", "R12.2", (SYM, "prim_pos = np.dot(conv_pos, prim_cell_inv)", "prim_pos = np.dot(conv_pos, prim_cell_inv.T)"))
+V("C12", "primitive atoms not wrapped", "R12.2", (SYM, "        prim_sys.wrap()\n", ""))
+V("C12", "letters sliced by another mask", "R12.3", (SYM, "        prim_wyckoff = conv_wyckoff[inside_mask]", "        prim_wyckoff = conv_wyckoff[conv_to_prim_map]"))
+V("C12", "original letters without permutation", "R12.4", (SYM, "            new_wyckoff = permutations[old_wyckoff]", "            new_wyckoff = old_wyckoff"))
+V("C12", "primitive system from spglib letters", "R12.4", (SYM, "        conv_wyckoff = self.get_wyckoff_letters_conventional()\n        conv_equivalent", "        conv_wyckoff = self._get_spglib_wyckoff_letters_conventional()\n        conv_equivalent"))
